@@ -149,6 +149,43 @@ func execAlias(s *Sexp) string {
 		if s1 != s2 {
 			lastAliasOracle = append(lastAliasOracle, "decoded value changed when the input buffer was overwritten: "+s1+" -> "+s2)
 		}
+		// a second decode into the SAME target (keys and elements already present) from another buffer,
+		// which is then overwritten too
+		data2 := append([]byte(nil), dataCopy...)
+		if err := c.unmarshalPtr(data2, dst); err == nil {
+			t1 := FromReflect(dst.Elem(), c.td).String()
+			if len(data2) > 0 {
+				lo := uintptr(unsafe.Pointer(unsafe.SliceData(data2)))
+				hi := lo + uintptr(cap(data2))
+				for _, r := range memRanges(dst.Elem()) {
+					if r[0] < hi && lo < r[1] {
+						lastAliasOracle = append(lastAliasOracle, "after decoding into an already populated target, a string or slice points into the input buffer")
+						break
+					}
+				}
+			}
+			for i := range data2 {
+				data2[i] = 0x55
+			}
+			if t2 := FromReflect(dst.Elem(), c.td).String(); t1 != t2 {
+				lastAliasOracle = append(lastAliasOracle, "value decoded into a populated target changed when the input buffer was overwritten: "+t1+" -> "+t2)
+			}
+		}
+		// the caller re-uses its buffer for another message of the same shape (same lengths, other
+		// contents) and decodes that into a fresh variable: it must get the new contents
+		if v2 := sameLen(v); !multiEntryMaps(v) {
+			if src2, err := c.newValue(v2); err == nil {
+				if enc2, err := c.marshalPtr(src2); err == nil && len(enc2) == len(data) {
+					copy(data, enc2)
+					fresh := reflect.New(c.rt)
+					if err := c.unmarshalPtr(data, fresh); err != nil {
+						lastAliasOracle = append(lastAliasOracle, "decoding the re-used buffer failed")
+					} else if got, want := FromReflect(fresh.Elem(), c.td).String(), normPos(c.td, v2, c.tag == "proto").String(); got != want {
+						lastAliasOracle = append(lastAliasOracle, "after the buffer was re-used for another message, decoding it gave "+got+" want "+want)
+					}
+				}
+			}
+		}
 		return "ok " + s2
 	})
 }
@@ -267,4 +304,35 @@ func badSliceHeaders(rv reflect.Value) string {
 	}
 	walk(rv)
 	return msg
+}
+
+// sameLen: the same value with every string and byte slice replaced by other bytes
+// of the same length (an injective change, so map keys stay distinct).
+func sameLen(v *Val) *Val {
+	switch v.K {
+	case "s", "y":
+		d := make([]byte, len(v.Data))
+		for i, b := range v.Data {
+			d[i] = b ^ 0x01
+		}
+		return &Val{K: v.K, Data: d}
+	case "p":
+		if v.P == nil {
+			return v
+		}
+		return &Val{K: "p", P: sameLen(v.P)}
+	case "l", "r":
+		out := &Val{K: v.K}
+		for _, e := range v.L {
+			out.L = append(out.L, sameLen(e))
+		}
+		return out
+	case "m":
+		out := &Val{K: "m"}
+		for _, e := range v.M {
+			out.M = append(out.M, [2]*Val{sameLen(e[0]), sameLen(e[1])})
+		}
+		return out
+	}
+	return v
 }
